@@ -22,7 +22,7 @@
 (*   otherwise            :  H[1..minlen] \o zeros \o uvarint(c)           *)
 (* until the slot is free (insert) or already holds this IRI.              *)
 (***************************************************************************)
-EXTENDS Types
+EXTENDS Types, Known
 
 HashOf(d, iri) == d.hash[iri]
 
@@ -197,6 +197,13 @@ C16_ManagerOnly_Prop == [][C16_ManagerOnly_Step]_dvars
 C16_Effect_Prop      == [][C16_Effect_Step]_dvars
 C16_Footprint_Prop   == [][C16_Footprint_Step]_dvars
 
+
+\* ================================================================== C09 (data part)
+\* model of the data module's genesis validation, as far as the abstraction can falsify it:
+\* Resolver.Validate rejects an empty manager -- which is how a PUBLIC resolver is stored
+\* (recorded finding public_resolver_genesis)
+DataGenesisValid(d) == \A r \in d.resolvers : r.manager # ""
+C09_DataValidGenesis == DataGenesisValid(dst) \/ "public_resolver_genesis" \in KnownKeys
 
 \* ================================================================== C17 (data queries)
 \* items: "iri|attestor" for attestations, decimal resolver ids for resolvers
